@@ -9,6 +9,7 @@ import EaselModel.Msafile.StoGrowth
 import EaselModel.Msafile.StoNum
 import EaselModel.Msafile.OpenByName
 import EaselModel.Msafile.GzSuffix
+import EaselModel.Msafile.OpenGz
 import EaselModel.Msafile.AbcTables
 import EaselModel.Msafile.GuessLemmas
 /-! # C01 — alignment input is total: property theorems (statements + glue; lemmas live in `Msafile/*Lemmas.lean`)
@@ -946,5 +947,26 @@ example : openModelW 0 .auto .text (some (str "x.pfam.gz")) (splitLines (str "# 
 example : openModelW 0 .auto .text (some (str "x.pfam.gz.gz")) (splitLines (str "# STOCKHOLM 1.0\na AC\n//\n")) = .ok ⟨.stockholm, none, 0⟩ := by
   decide +kernel
 example : fileExtension (str "x.pfam") 0 ≠ some bGz ∧ fileExtension (str "x.gz") 0 = some bGz := by decide +kernel
+
+/-! ## `esl_msafile_Open` on a `.gz` name (`Msafile/OpenGz.lean`): `gzip -dc` as a parameter
+
+Whatever the command does — fails (eslFAIL, `afp` in an error state with a non-empty message) or delivers any bytes: the call is
+total, never faults, every later read is good; and a compressed file opens exactly as the plain file of the name without `.gz`. -/
+theorem open_gz_total (nw0 : Nat) (fsel : FmtSel) (asel : AbcSel) (path : Bytes) (g : GzKind) :
+    (∃ msg, openGz nw0 fsel asel path g = .efail msg ∧ msg ≠ "") ∨
+    (∃ r, openGz nw0 fsel asel path g = .opened r ∧ r ≠ .fault ∧ ((∃ o, r = .ok o) ∨ r = .enoformat ∨ r = .enoalphabet) ∧
+      ∀ o, r = .ok o → o.cfg.valid ∧ ∀ lines, Good (o.readV lines).1) := by
+  cases g with
+  | failed => exact Or.inl ⟨_, rfl, (by decide)⟩
+  | bytes u =>
+    exact Or.inr ⟨_, rfl, openModelW_no_fault nw0 fsel asel (some path) (splitLines u), (open_total_fmtd nw0 fsel asel (some path) u).1,
+      fun o _ => ⟨opened_cfg_valid o, opened_readV_good o⟩⟩
+
+theorem open_gz_as_plain (nw0 : Nat) (fsel : FmtSel) (asel : AbcSel) (f unz : Bytes) (h : fileExtension f 0 ≠ some bGz) :
+    openGz nw0 fsel asel (f ++ bGz) (.bytes unz) = .opened (openModelW nw0 fsel asel (some f) (splitLines unz)) :=
+  openGz_as_plain nw0 fsel asel f unz h
+
+example : openGz 0 .auto .text (str "x.pfam.gz") (.bytes (str "# STOCKHOLM 1.0\na AC\n//\n")) = .opened (.ok ⟨.pfam, none, 0⟩) := by decide +kernel
+example : openGz 0 .auto .text (str "x.pfam.gz") .failed matches .efail _ := by decide
 
 end EaselModel.Props.C01
